@@ -5,7 +5,7 @@ import shutil
 import subprocess
 
 from . import refparse as P
-from .common import NUMLIB, WORK, MachineryError, Stats, Violation, collect, finish, hx, pmap, shim
+from .common import NUMLIB, WORK, MachineryError, Stats, Violation, collect, finish, hx, pmap, shim, child_setup
 from .eng_debug import push
 from .eng_optdiff import G16, RunObs, big, bodies, loop_program, prefix_compatible
 
@@ -139,7 +139,7 @@ def rustc(src_path, out_path):
 
 def run_exe(args, stdin, timeout):
     try:
-        p = subprocess.run(args, input=stdin, stdout=subprocess.PIPE, stderr=subprocess.PIPE, timeout=timeout)
+        p = subprocess.run(preexec_fn=child_setup, args=args, input=stdin, stdout=subprocess.PIPE, stderr=subprocess.PIPE, timeout=timeout)
         return p.returncode, p.stdout, p.stderr
     except subprocess.TimeoutExpired as e:
         return 'timeout', e.stdout or b'', e.stderr or b''
@@ -234,8 +234,10 @@ def batch_task(family, texts, stdin_text):
         else:
             continue
         o0 = interp[k]
-        to = LOOP_TIMEOUT if o0.kind == 'budget' else 5
+        to = LOOP_TIMEOUT if o0.kind == 'budget' else (5 if st.n.get('unexpected_timeouts', 0) < 3 else 0.5)
         r, out, err = run_exe(args, stdin, to)
+        if r == 'timeout' and o0.kind != 'budget':
+            st.inc('unexpected_timeouts')
         st.inc('runs')
         st.add('kinds', o0.kind + ':' + o0.status)
         res = compare_compiled(o0, r, out, err)
